@@ -293,3 +293,28 @@ Theorem C20_scalar_digits :
   Forall (fun d => -8 <= d <= 8) (digits_msf a).
 Proof. exact digits_represent. Qed.
 Print Assumptions C20_scalar_digits.
+
+(* ---- consequences of the addition law on the elements (eeqv: both well formed, same affine point) *)
+Theorem C20_point_add_neutral :
+  forall (K : Type) (O : Fops K), Flaws O -> forall (d : K) (p : ext (K:=K)),
+  fadd O (f1 O) (f1 O) <> f0 O -> ext_ok O p -> eeqv O (pt_add O (fadd O d d) p (ext_zero O)) p.
+Proof. exact (@pt_add_zero). Qed.
+Print Assumptions C20_point_add_neutral.
+
+Theorem C20_point_add_commutative :
+  forall (K : Type) (O : Fops K), Flaws O -> forall (d : K) (p q : ext (K:=K)),
+  fadd O (f1 O) (f1 O) <> f0 O -> ext_ok O p -> ext_ok O q ->
+  fadd O (f1 O) (fmul O (fmul O (fmul O (fmul O d (ax O p)) (ax O q)) (ay O p)) (ay O q)) <> f0 O ->
+  fsub O (f1 O) (fmul O (fmul O (fmul O (fmul O d (ax O p)) (ax O q)) (ay O p)) (ay O q)) <> f0 O ->
+  eeqv O (pt_add O (fadd O d d) p q) (pt_add O (fadd O d d) q p).
+Proof. exact (@pt_add_comm). Qed.
+Print Assumptions C20_point_add_commutative.
+
+Theorem C20_point_add_inverse :
+  forall (K : Type) (O : Fops K), Flaws O -> forall (d : K) (p : ext (K:=K)),
+  fadd O (f1 O) (f1 O) <> f0 O -> ext_ok O p -> on_curve O d p ->
+  fadd O (f1 O) (fmul O (fmul O (fmul O (fmul O d (ax O p)) (ax O p)) (ay O p)) (ay O p)) <> f0 O ->
+  fsub O (f1 O) (fmul O (fmul O (fmul O (fmul O d (ax O p)) (ax O p)) (ay O p)) (ay O p)) <> f0 O ->
+  eeqv O (pt_add O (fadd O d d) p (pt_neg O p)) (ext_zero O).
+Proof. exact (@pt_add_neg). Qed.
+Print Assumptions C20_point_add_inverse.
